@@ -380,6 +380,8 @@ def build_explicit(inst):
             h = lambda x: lam * float(np.sum(np.abs(x)))
             prox = lambda x, u: soft(x, lam * u)
         kw.update(h=h, lh=lam * math.sqrt(n), prox_uh=prox)
+        if inst.get("lhtype") == "float32":
+            kw["lh"] = np.float32(lam * math.sqrt(n) * 1.0001)        # (a slightly larger constant is still a Lipschitz constant)
     elif reg == "l2":
         def proxl2(x, u, *a):
             if a:
@@ -394,6 +396,11 @@ def build_explicit(inst):
         else:
             h = lambda x: lam * float(np.linalg.norm(x))
         kw.update(h=h, lh=lam, prox_uh=proxl2)
+        if inst.get("lhtype") == "int":
+            assert float(int(lam)) == lam
+            kw["lh"] = int(lam)
+    if inst.get("nsamples") == "2":
+        kw["nsamples"] = lambda delta, rho, it, nruns: 2
     hval = (lambda x: 0.0) if h is None else ((lambda x: lam * float(np.sum(np.abs(x)))) if reg == "l1" else (lambda x: lam * float(np.linalg.norm(x))))
     return dict(resid=(lambda x: A @ x - b), kwargs=kw, x0=x0, lo=lo, hi=hi, sets=[], hval=hval, A=A, b=b, c=np.zeros(n), n=n, m=m, lam=lam, reg=reg,
                 noise=0.0, seen_args=seen_args)
